@@ -1,7 +1,7 @@
 """C03 - incremental SAGE: per-feature credit along the drawn chain, running statistics of every observable."""
 import random
 
-from ..harness import Scenario, gen_cfg, ref_alpha
+from ..harness import Scenario, gen_cfg, make_long, make_phase, ref_alpha
 from ..riverlike import RealScenario, gen_real_cfg
 from ..probes import InjectedFault
 from ..explref import SageRef, Mismatch, compare
@@ -23,7 +23,7 @@ def run_config(run, cfg, seed, tag):
         run.other_error(f"C15:construct:{type(ex).__name__}")
         return
     run.count("configs")
-    ref = SageRef(sc.names, cfg["dyn"], ref_alpha(cfg), cfg["lbib"], sc.model, sc.loss)
+    ref = SageRef(sc.names, cfg["dyn"], ref_alpha(cfg), cfg["lbib"], sc.model, sc.loss, fast=cfg["steps"] > 400)
     if cfg.get("real"):
         run.count("real-model-configs")
         ref.unique = False
@@ -132,7 +132,7 @@ def main(run):
     run.rule = ("seeded configurations from the cfg product; per call the feature order and the imputed sets are read "
                 "off the imputer calls / model inputs (unique feature values), an independent reference recomputes "
                 "coalition losses with pristine model/loss twins and closed-form running statistics; importance, "
-                "variances, marginal_loss, model_loss, marginal_prediction compared on every prefix (== in exact mode, "
+                "variances, marginal_loss, model_loss, marginal_prediction compared on every prefix, also for real river models that keep learning between calls (every 12th configuration) (== in exact mode, "
                 "1e-9*scale in float mode); evaluations = observables compared; non-trivial = call with >= 2 distinct "
                 "non-zero contributions, distinct by (config, step)")
     run.assumptions = ["model and loss are the harness' deterministic pure functions",
@@ -140,10 +140,16 @@ def main(run):
     run.require("ixai/explainer/sage/incremental.py:IncrementalSage.explain_one",
                 "ixai/explainer/base.py:_get_mean_model_output",
                 "ixai/utils/tracker/multi_value.py:MultiValueTracker.get_normalized")
-    run.require_count("real-model-configs")
+    run.require_count("real-model-configs", "long-stream-configs", "late-informative-model-configs")
     rnd = random.Random(run.shard_seed)
     for i in range(N_CFG[run.tier]):
         cfg = gen_cfg(rnd, "sage", exact=(i % 3 != 2))
+        if i in (40, 41) or (run.tier == "thorough" and i % 500 == 42):      # thousands of calls on one explainer (exact and float)
+            make_long(cfg, rnd, 4200 if i == 41 else rnd.choice([1100, 2100, 9000 if run.tier == "thorough" else 1300]))
+            run.count("long-stream-configs")
+        if i in (50, 51, 53, 56) or (run.tier == "thorough" and i % 300 == 50):      # model that becomes informative after ~40 observations
+            make_phase(cfg, rnd, dyn=(i == 51))
+            run.count("late-informative-model-configs")
         run_config(run, cfg, rnd.randrange(2 ** 31), f"s{run.shard[0]}c{i}")
         if i % 12 == 11:       # a real river model that keeps learning, river streams, river metrics, the library's wrappers
             rcfg = gen_real_cfg(rnd, "sage", need_decode=True)
